@@ -1,15 +1,1169 @@
-//! Hand-off pipeline ops: stall, accept.pace, foreign (C07 C08 C17).
-use wtverif_harness::Rng;
+//! Hand-off pipeline ops: `stall` (C07), `accept.pace` (C08), `foreign` (C17).
+use std::collections::{BTreeSet, HashMap, HashSet};
+use std::sync::atomic::{AtomicUsize, Ordering};
+use std::sync::{Arc, Mutex};
+use std::time::Duration;
 
-pub async fn run(_op: &str, _a: &[String]) -> Option<Vec<String>> {
-    None
+use tokio::sync::{watch, Semaphore};
+use tokio::time::Instant;
+use wtransport::{Connection, RecvStream};
+use wtverif_harness::e2e_lib::endpoints::{self, accept_session, real_pair};
+use wtverif_harness::e2e_lib::raw::{self, RawClient, RawOpts};
+use wtverif_harness::e2e_lib::rt::{bounded, joined, TestRt, STEP_MS};
+use wtverif_harness::e2e_lib::{arg, arg_u64, arg_usize, canon, wire};
+use wtverif_harness::{hex, Rng};
+
+use crate::ops_data::Keep;
+
+pub async fn run(op: &str, a: &[String]) -> Option<Vec<String>> {
+    Some(match op {
+        "stall" => stall(a).await,
+        "accept.pace" => accept_pace(a).await,
+        "foreign" => foreign(a).await,
+        _ => return None,
+    })
+}
+
+fn lock<T>(m: &Mutex<T>) -> std::sync::MutexGuard<'_, T> {
+    m.lock().unwrap_or_else(|p| p.into_inner())
+}
+
+/// Reads a real stream until the first non-data result, without any bound of its own (the caller
+/// bounds or aborts it). Returns the bytes and `eos` or the stream error form.
+async fn read_all(r: &mut RecvStream) -> (Vec<u8>, String) {
+    let mut buf = vec![0u8; 4096];
+    let mut out = Vec::new();
+    loop {
+        match r.read(&mut buf).await {
+            Ok(Some(k)) => out.extend_from_slice(&buf[..k]),
+            Ok(None) => return (out, "eos".into()),
+            Err(e) => return (out, canon::read_err(&e)),
+        }
+    }
+}
+
+// ---------------------------------------------------------------------------------------------
+// stall  rt kind k pos order
+
+/// How long the application keeps accepting at most.
+const STALL_APP_MS: u64 = 6000;
+/// How long the raw peer waits for the healthy traffic to be delivered before the clean close
+/// (it closes earlier once everything was delivered).
+const STALL_SETTLE_MS: u64 = 2000;
+/// Pause of the raw peer between two items of its traffic.
+const STALL_GAP_MS: u64 = 10;
+
+fn stall_uni_payload(i: usize) -> Vec<u8> {
+    vec![0x10 + i as u8, 0xaa, 0xbb, 0xcc]
+}
+fn stall_bi_payload(i: usize) -> Vec<u8> {
+    vec![0x20 + i as u8, 0xaa, 0xbb, 0xcc]
+}
+const STALL_DGRAM: [u8; 4] = [0x30, 0xaa, 0xbb, 0xcc];
+/// payload of the extra healthy stream (index 3 of its kind)
+fn stall_extra_payload(uni: bool) -> Vec<u8> {
+    if uni {
+        stall_uni_payload(3)
+    } else {
+        stall_bi_payload(3)
+    }
+}
+
+#[derive(Default)]
+struct StallShared {
+    /// quinn stream indices of the raw peer's `unread` streams: the application accepts them but
+    /// never reads them (the raw peer registers the index before it writes the first byte)
+    no_read_uni: HashSet<u64>,
+    no_read_bi: HashSet<u64>,
+    /// byte strings of the streams that were read up to a clean end-of-stream
+    uni: Vec<Vec<u8>>,
+    bi: Vec<Vec<u8>>,
+    dgrams: Vec<Vec<u8>>,
+}
+
+#[derive(Clone, Copy, PartialEq, Eq, Debug)]
+enum StallItem {
+    Stalled,
+    HealthyUni(usize),
+    HealthyBi(usize),
+    Dgram,
+    Extra,
+}
+
+fn stall_sequence(uni_kind: bool, k: usize, pos: &str, order: &str) -> Vec<StallItem> {
+    use StallItem::*;
+    // healthy streams: the stalled kind first within each pair
+    let pair = |i: usize| {
+        if uni_kind {
+            [HealthyUni(i), HealthyBi(i)]
+        } else {
+            [HealthyBi(i), HealthyUni(i)]
+        }
+    };
+    let mut seq = vec![];
+    match order {
+        "healthy_first" => {
+            for i in 0..3 {
+                seq.extend(pair(i));
+            }
+            seq.push(Dgram);
+            seq.extend(std::iter::repeat(Stalled).take(k));
+            if pos == "nobyte" {
+                seq.push(Extra);
+            }
+        }
+        "interleaved" => {
+            let mut left = k;
+            for i in 0..3 {
+                if left > 0 {
+                    seq.push(Stalled);
+                    left -= 1;
+                }
+                seq.extend(pair(i));
+            }
+            seq.extend(std::iter::repeat(Stalled).take(left));
+            seq.push(Dgram);
+        }
+        _ => {
+            seq.extend(std::iter::repeat(Stalled).take(k));
+            for i in 0..3 {
+                seq.extend(pair(i));
+            }
+            seq.push(Dgram);
+        }
+    }
+    seq
+}
+
+async fn stall(a: &[String]) -> Vec<String> {
+    let uni_kind = arg(a, 1) == "uni";
+    let k = arg_usize(a, 2).min(90);
+    let pos = arg(a, 3).to_string();
+    let order = arg(a, 4).to_string();
+
+    let rt = match TestRt::new(arg(a, 0)) {
+        Ok(rt) => rt,
+        Err(e) => return vec![format!("error={e}")],
+    };
+    let (sep, port) = match endpoints::server(&rt).await {
+        Ok(x) => x,
+        Err(e) => return vec![format!("error={e}")],
+    };
+    let shared = Arc::new(Mutex::new(StallShared::default()));
+
+    // the application: two accept loops (every accepted stream is read in its own task) and a
+    // datagram loop, for at most STALL_APP_MS
+    let sep2 = sep.clone();
+    let sh = shared.clone();
+    let app = rt.spawn(async move {
+        let mut keep: Keep = vec![];
+        let conn = match accept_session(&sep2).await {
+            Ok(c) => c,
+            Err(e) => return Err(format!("session:{e}")),
+        };
+        let deadline = Instant::now() + Duration::from_millis(STALL_APP_MS);
+        let read_deadline = deadline + Duration::from_millis(500);
+
+        let (c, s) = (conn.clone(), sh.clone());
+        let uni_loop = tokio::spawn(async move {
+            let mut held: Keep = vec![];
+            let mut readers = vec![];
+            let end = loop {
+                match tokio::time::timeout_at(deadline, c.accept_uni()).await {
+                    Err(_) => break "timeout".to_string(),
+                    Ok(Err(e)) => break canon::conn_err(&e),
+                    Ok(Ok(mut r)) => {
+                        let idx = r.quic_stream().id().index();
+                        if lock(&s).no_read_uni.contains(&idx) {
+                            held.push(Box::new(r));
+                            continue;
+                        }
+                        let s = s.clone();
+                        readers.push(tokio::spawn(async move {
+                            let res = tokio::time::timeout_at(read_deadline, read_all(&mut r)).await;
+                            if let Ok((data, end)) = res {
+                                if end == "eos" {
+                                    lock(&s).uni.push(data);
+                                }
+                            }
+                            r
+                        }));
+                    }
+                }
+            };
+            (end, held, readers)
+        });
+        let (c, s) = (conn.clone(), sh.clone());
+        let bi_loop = tokio::spawn(async move {
+            let mut held: Keep = vec![];
+            let mut readers = vec![];
+            let end = loop {
+                match tokio::time::timeout_at(deadline, c.accept_bi()).await {
+                    Err(_) => break "timeout".to_string(),
+                    Ok(Err(e)) => break canon::conn_err(&e),
+                    Ok(Ok((w, mut r))) => {
+                        let idx = r.quic_stream().id().index();
+                        if lock(&s).no_read_bi.contains(&idx) {
+                            held.push(Box::new((w, r)));
+                            continue;
+                        }
+                        let s = s.clone();
+                        readers.push(tokio::spawn(async move {
+                            let res = tokio::time::timeout_at(read_deadline, read_all(&mut r)).await;
+                            if let Ok((data, end)) = res {
+                                if end == "eos" {
+                                    lock(&s).bi.push(data);
+                                }
+                            }
+                            (w, r)
+                        }));
+                    }
+                }
+            };
+            (end, held, readers)
+        });
+        let (c, s) = (conn.clone(), sh.clone());
+        let dgram_loop = tokio::spawn(async move {
+            loop {
+                match tokio::time::timeout_at(deadline, c.receive_datagram()).await {
+                    Err(_) => break "timeout".to_string(),
+                    Ok(Err(e)) => break canon::conn_err(&e),
+                    Ok(Ok(d)) => lock(&s).dgrams.push(d.payload().to_vec()),
+                }
+            }
+        });
+
+        let (close_uni, held, readers) = joined(uni_loop).await?;
+        keep.push(Box::new(held));
+        for r in readers {
+            // after the close every read ends at once; `read_deadline` is the backstop
+            if let Ok(r) = joined(r).await {
+                keep.push(Box::new(r));
+            }
+        }
+        let (close_bi, held, readers) = joined(bi_loop).await?;
+        keep.push(Box::new(held));
+        for r in readers {
+            if let Ok(r) = joined(r).await {
+                keep.push(Box::new(r));
+            }
+        }
+        let close_dgram = joined(dgram_loop).await?;
+        keep.push(Box::new(conn));
+        Ok((close_uni, close_bi, close_dgram, keep))
+    });
+
+    // the raw peer
+    let seq = stall_sequence(uni_kind, k, &pos, &order);
+    let has_extra = seq.contains(&StallItem::Extra);
+    let sh = shared.clone();
+    let raw_side = async {
+        let mut client = RawClient::session(port, &RawOpts::default()).await?;
+        let mut keep: Keep = vec![];
+        for (n, item) in seq.iter().enumerate() {
+            if n > 0 {
+                tokio::time::sleep(Duration::from_millis(STALL_GAP_MS)).await;
+            }
+            // which stream to open and what to write on it
+            let (uni, bytes, fin): (bool, Vec<u8>, bool) = match item {
+                StallItem::Dgram => {
+                    let d = wire::wt_datagram(0, &STALL_DGRAM);
+                    client
+                        .conn
+                        .send_datagram(bytes::Bytes::from(d))
+                        .map_err(|e| format!("send_datagram:{e}"))?;
+                    continue;
+                }
+                StallItem::HealthyUni(i) => {
+                    let mut b = wire::wt_uni_preamble(0);
+                    b.extend(stall_uni_payload(*i));
+                    (true, b, true)
+                }
+                StallItem::HealthyBi(i) => {
+                    let mut b = wire::wt_bi_preamble(0);
+                    b.extend(stall_bi_payload(*i));
+                    (false, b, true)
+                }
+                StallItem::Extra => {
+                    let mut b = if uni_kind {
+                        wire::wt_uni_preamble(0)
+                    } else {
+                        wire::wt_bi_preamble(0)
+                    };
+                    b.extend(stall_extra_payload(uni_kind));
+                    (uni_kind, b, true)
+                }
+                StallItem::Stalled => {
+                    let pre = if uni_kind {
+                        wire::wt_uni_preamble(0)
+                    } else {
+                        wire::wt_bi_preamble(0)
+                    };
+                    let b = match pos.as_str() {
+                        "nobyte" => vec![],
+                        "partial" => pre[..1].to_vec(),
+                        "full_silence" => pre,
+                        _ => {
+                            // unread
+                            let mut b = pre;
+                            b.extend(std::iter::repeat(0x55u8).take(64 * 1024));
+                            b
+                        }
+                    };
+                    (uni_kind, b, false)
+                }
+            };
+            let unread = *item == StallItem::Stalled && pos == "unread";
+            let mut send = if uni {
+                let s = client.open_uni().await?;
+                if unread {
+                    lock(&sh).no_read_uni.insert(s.id().index());
+                }
+                s
+            } else {
+                let (s, r) = client.open_bi().await?;
+                if unread {
+                    lock(&sh).no_read_bi.insert(s.id().index());
+                }
+                // a dropped receive half would send STOP_SENDING (and thereby announce the stream)
+                keep.push(Box::new(r));
+                s
+            };
+            raw::write_pieces(&mut send, &[bytes], 0).await?;
+            if fin {
+                send.finish().map_err(|_| "finish:closed".to_string())?;
+            }
+            // a dropped send half would be finished implicitly
+            keep.push(Box::new(send));
+        }
+        // wait for the healthy traffic (at most STALL_SETTLE_MS), then the clean close
+        let t0 = Instant::now();
+        loop {
+            {
+                let s = lock(&sh);
+                let want_uni = 3 + usize::from(has_extra && uni_kind);
+                let want_bi = 3 + usize::from(has_extra && !uni_kind);
+                if s.uni.len() >= want_uni && s.bi.len() >= want_bi && !s.dgrams.is_empty() {
+                    break;
+                }
+            }
+            if t0.elapsed() >= Duration::from_millis(STALL_SETTLE_MS) {
+                break;
+            }
+            tokio::time::sleep(Duration::from_millis(10)).await;
+        }
+        if let Some((s, _)) = client.req.as_mut() {
+            s.finish().map_err(|_| "close:closed".to_string())?;
+        }
+        keep.push(Box::new(client));
+        Ok::<Keep, String>(keep)
+    };
+    let raw_res = raw_side.await;
+    if raw_res.is_err() {
+        // nothing will close the session: do not wait for the application's 6 s
+        app.abort();
+    }
+    let app_res = joined(app).await;
+
+    let (uni, bi, dgram, extra) = {
+        let s = lock(&shared);
+        let uni = (0..3).filter(|i| s.uni.contains(&stall_uni_payload(*i))).count();
+        let bi = (0..3).filter(|i| s.bi.contains(&stall_bi_payload(*i))).count();
+        let dgram = s.dgrams.iter().any(|d| d[..] == STALL_DGRAM);
+        let extra = if !has_extra {
+            "-".to_string()
+        } else if uni_kind {
+            s.uni.contains(&stall_extra_payload(true)).to_string()
+        } else {
+            s.bi.contains(&stall_extra_payload(false)).to_string()
+        };
+        (uni, bi, dgram, extra)
+    };
+    let mut err: Option<String> = raw_res.as_ref().err().map(|e| format!("raw:{e}"));
+    let close = match app_res {
+        Ok(Ok((cu, cb, cd, keep))) => {
+            drop(keep);
+            if cu == cb && cb == cd {
+                cu
+            } else {
+                format!("{cu},{cb},{cd}")
+            }
+        }
+        Ok(Err(e)) | Err(e) => {
+            if err.is_none() {
+                err = Some(format!("app:{e}"));
+            }
+            "-".to_string()
+        }
+    };
+    let mut obs = vec![
+        format!("uni={uni}/3"),
+        format!("bi={bi}/3"),
+        format!("dgram={dgram}"),
+        format!("close={close}"),
+        format!("extra={extra}"),
+    ];
+    if let Some(e) = err {
+        obs.push(format!("err={e}"));
+    }
+    drop(raw_res);
+    drop(sep);
+    obs
+}
+
+// ---------------------------------------------------------------------------------------------
+// accept.pace  rt n_uni n_bi tasks delay_ms cancel seed
+
+/// Overall bound of the accepting side.
+const PACE_ACCEPT_MS: u64 = 20_000;
+/// Streams the client has in flight (being opened / written / finished) at any time.
+const PACE_IN_FLIGHT: usize = 50;
+
+#[derive(Default)]
+struct PaceShared {
+    /// one entry per accepted stream whose reading ended: the payload as a number, or `None`
+    /// when the bytes are not an 8-byte string followed by a clean end-of-stream
+    uni: Vec<Option<u64>>,
+    bi: Vec<Option<u64>>,
+    err: Option<String>,
+}
+
+fn note_err(sh: &Mutex<PaceShared>, e: String) {
+    let mut s = lock(sh);
+    if s.err.is_none() {
+        s.err = Some(e);
+    }
+}
+
+#[allow(clippy::too_many_arguments)]
+async fn pace_accept_task(
+    conn: Connection,
+    uni: bool,
+    n: usize,
+    delay_ms: u64,
+    cancel: bool,
+    mut rng: Rng,
+    accepted: Arc<AtomicUsize>,
+    done_tx: Arc<watch::Sender<bool>>,
+    mut done_rx: watch::Receiver<bool>,
+    deadline: Instant,
+    sh: Arc<Mutex<PaceShared>>,
+) -> Vec<tokio::task::JoinHandle<()>> {
+    enum Got {
+        Uni(RecvStream),
+        Bi(wtransport::SendStream, RecvStream),
+        Err(String),
+        Stop,
+    }
+    let mut readers = vec![];
+    loop {
+        if accepted.load(Ordering::SeqCst) >= n || *done_rx.borrow() {
+            break;
+        }
+        // one accept; with `cancel` the accept future is raced against a short sleep and, when
+        // the sleep wins, dropped and issued again
+        let got = loop {
+            let nap = if cancel {
+                Duration::from_micros(rng.below(3001))
+            } else {
+                Duration::from_secs(3600)
+            };
+            tokio::select! {
+                r = async {
+                    if uni {
+                        match conn.accept_uni().await {
+                            Ok(r) => Got::Uni(r),
+                            Err(e) => Got::Err(canon::conn_err(&e)),
+                        }
+                    } else {
+                        match conn.accept_bi().await {
+                            Ok((w, r)) => Got::Bi(w, r),
+                            Err(e) => Got::Err(canon::conn_err(&e)),
+                        }
+                    }
+                } => break r,
+                _ = tokio::time::sleep(nap) => continue,
+                _ = done_rx.changed() => break Got::Stop,
+                _ = tokio::time::sleep_until(deadline) => break Got::Stop,
+            }
+        };
+        let (send, mut recv) = match got {
+            Got::Stop => break,
+            Got::Err(e) => {
+                note_err(&sh, format!("accept:{e}"));
+                break;
+            }
+            Got::Uni(r) => (None, r),
+            Got::Bi(w, r) => (Some(w), r),
+        };
+        if accepted.fetch_add(1, Ordering::SeqCst) + 1 >= n {
+            let _ = done_tx.send(true);
+        }
+        let sh2 = sh.clone();
+        readers.push(tokio::spawn(async move {
+            let res = bounded(read_all(&mut recv)).await;
+            let v = match res {
+                Some((data, end)) if end == "eos" && data.len() == 8 => {
+                    let mut b = [0u8; 8];
+                    b.copy_from_slice(&data);
+                    Some(u64::from_be_bytes(b))
+                }
+                _ => None,
+            };
+            let mut s = lock(&sh2);
+            if uni {
+                s.uni.push(v);
+            } else {
+                s.bi.push(v);
+            }
+            drop(s);
+            // the server answers nothing: the send half is closed without data
+            drop(send);
+        }));
+        if delay_ms > 0 {
+            tokio::time::sleep(Duration::from_millis(delay_ms)).await;
+        }
+    }
+    readers
+}
+
+async fn pace_open_one(conn: Connection, uni: bool, i: u64) -> Result<(), String> {
+    let data = i.to_be_bytes();
+    let step = |what: &str, e: String| format!("{what}:{e}");
+    if uni {
+        let opening = match bounded(conn.open_uni()).await {
+            None => return Err(step("open_uni", "timeout".into())),
+            Some(Err(e)) => return Err(step("open_uni", canon::conn_err(&e))),
+            Some(Ok(o)) => o,
+        };
+        let mut s = match bounded(opening).await {
+            None => return Err(step("opening_uni", "timeout".into())),
+            Some(Err(e)) => return Err(step("opening_uni", canon::opening_err(&e))),
+            Some(Ok(s)) => s,
+        };
+        match bounded(s.write_all(&data)).await {
+            None => return Err(step("write_uni", "timeout".into())),
+            Some(Err(e)) => return Err(step("write_uni", canon::write_err(&e))),
+            Some(Ok(())) => {}
+        }
+        match bounded(s.finish()).await {
+            None => Err(step("finish_uni", "timeout".into())),
+            Some(Err(e)) => Err(step("finish_uni", canon::write_err(&e))),
+            Some(Ok(())) => Ok(()),
+        }
+    } else {
+        let opening = match bounded(conn.open_bi()).await {
+            None => return Err(step("open_bi", "timeout".into())),
+            Some(Err(e)) => return Err(step("open_bi", canon::conn_err(&e))),
+            Some(Ok(o)) => o,
+        };
+        let (mut s, r) = match bounded(opening).await {
+            None => return Err(step("opening_bi", "timeout".into())),
+            Some(Err(e)) => return Err(step("opening_bi", canon::opening_err(&e))),
+            Some(Ok(s)) => s,
+        };
+        match bounded(s.write_all(&data)).await {
+            None => return Err(step("write_bi", "timeout".into())),
+            Some(Err(e)) => return Err(step("write_bi", canon::write_err(&e))),
+            Some(Ok(())) => {}
+        }
+        let f = match bounded(s.finish()).await {
+            None => Err(step("finish_bi", "timeout".into())),
+            Some(Err(e)) => Err(step("finish_bi", canon::write_err(&e))),
+            Some(Ok(())) => Ok(()),
+        };
+        drop(r);
+        f
+    }
+}
+
+async fn accept_pace(a: &[String]) -> Vec<String> {
+    let n_uni = arg_usize(a, 1).min(5000);
+    let n_bi = arg_usize(a, 2).min(5000);
+    let tasks = arg_usize(a, 3).clamp(1, 64);
+    let delay_ms = arg_u64(a, 4).min(1000);
+    let cancel = arg(a, 5) == "1";
+    let seed = arg_u64(a, 6);
+    let fail = |e: String| {
+        vec![
+            format!("uni=0/{n_uni}"),
+            format!("bi=0/{n_bi}"),
+            "dup=0".to_string(),
+            "unknown=0".to_string(),
+            format!("err={e}"),
+        ]
+    };
+    let rt = match TestRt::new(arg(a, 0)) {
+        Ok(rt) => rt,
+        Err(e) => return fail(e),
+    };
+    let pair = match real_pair(&rt).await {
+        Ok(p) => p,
+        Err(e) => return fail(e),
+    };
+    let sh = Arc::new(Mutex::new(PaceShared::default()));
+    let deadline = Instant::now() + Duration::from_millis(PACE_ACCEPT_MS);
+
+    // the accepting side
+    let mut accept_tasks = vec![];
+    for (uni, n) in [(true, n_uni), (false, n_bi)] {
+        if n == 0 {
+            continue;
+        }
+        let accepted = Arc::new(AtomicUsize::new(0));
+        let (done_tx, done_rx) = watch::channel(false);
+        let done_tx = Arc::new(done_tx);
+        for t in 0..tasks {
+            let rng = Rng::new(
+                seed.wrapping_mul(1_000_003)
+                    .wrapping_add(t as u64 * 2 + u64::from(uni)),
+            );
+            accept_tasks.push(rt.spawn(pace_accept_task(
+                pair.server.clone(),
+                uni,
+                n,
+                delay_ms,
+                cancel,
+                rng,
+                accepted.clone(),
+                done_tx.clone(),
+                done_rx.clone(),
+                deadline,
+                sh.clone(),
+            )));
+        }
+    }
+
+    // the opening side: one task per stream, PACE_IN_FLIGHT of them at work
+    let sem = Arc::new(Semaphore::new(PACE_IN_FLIGHT));
+    let mut openers = vec![];
+    for i in 0..n_uni.max(n_bi) {
+        for (uni, n) in [(true, n_uni), (false, n_bi)] {
+            if i >= n {
+                continue;
+            }
+            let conn = pair.client.clone();
+            let sem = sem.clone();
+            let sh = sh.clone();
+            openers.push(rt.spawn(async move {
+                let Ok(_permit) = sem.acquire_owned().await else {
+                    return;
+                };
+                if let Err(e) = pace_open_one(conn, uni, i as u64).await {
+                    note_err(&sh, format!("client:{e}"));
+                }
+            }));
+        }
+    }
+
+    // stop when everything was accepted (or the accepting side gave up), then let the readers end
+    let mut readers = vec![];
+    for t in accept_tasks {
+        match joined(t).await {
+            Ok(r) => readers.extend(r),
+            Err(e) => note_err(&sh, format!("accept_task:{e}")),
+        }
+    }
+    let read_deadline = Instant::now() + Duration::from_millis(STEP_MS + 1000);
+    for mut r in readers {
+        if tokio::time::timeout_at(read_deadline, &mut r).await.is_err() {
+            r.abort();
+        }
+    }
+    let open_deadline = Instant::now() + Duration::from_millis(2000);
+    for mut o in openers {
+        if tokio::time::timeout_at(open_deadline, &mut o).await.is_err() {
+            o.abort();
+        }
+    }
+
+    let s = lock(&sh);
+    let mut dup = 0usize;
+    let mut unknown = 0usize;
+    let mut distinct = [0usize; 2];
+    for (slot, (list, n)) in [(&s.uni, n_uni), (&s.bi, n_bi)].into_iter().enumerate() {
+        let mut count: HashMap<u64, usize> = HashMap::new();
+        for v in list.iter() {
+            match v {
+                Some(v) if (*v as usize) < n => *count.entry(*v).or_default() += 1,
+                _ => unknown += 1,
+            }
+        }
+        distinct[slot] = count.len();
+        dup += count.values().filter(|c| **c >= 2).count();
+    }
+    let mut obs = vec![
+        format!("uni={}/{n_uni}", distinct[0]),
+        format!("bi={}/{n_bi}", distinct[1]),
+        format!("dup={dup}"),
+        format!("unknown={unknown}"),
+    ];
+    if let Some(e) = &s.err {
+        obs.push(format!("err={e}"));
+    }
+    drop(s);
+    drop(pair);
+    obs
+}
+
+// ---------------------------------------------------------------------------------------------
+// foreign  rt kinds
+
+/// Pause after every item the raw peer sends.
+const FOREIGN_GAP_MS: u64 = 30;
+/// How long the application keeps accepting after the last item.
+const FOREIGN_WINDOW_MS: u64 = 1500;
+
+/// Payload of the item for the foreign session at position `i` of `kinds`.
+fn foreign_payload(i: usize) -> Vec<u8> {
+    vec![0x46, i as u8]
+}
+/// Payload of the item for the live session 0 that follows it.
+fn live_payload(i: usize) -> Vec<u8> {
+    vec![0x4c, i as u8]
+}
+
+#[derive(Default)]
+struct ForeignShared {
+    /// in the order of acceptance; `None` while the stream is still being read
+    uni: Vec<Option<Vec<u8>>>,
+    bi: Vec<Option<Vec<u8>>>,
+    dgram: Vec<Vec<u8>>,
+    err: Option<String>,
+}
+
+fn fmt_list(items: Vec<String>) -> String {
+    if items.is_empty() {
+        "-".to_string()
+    } else {
+        items.join(",")
+    }
+}
+
+async fn foreign(a: &[String]) -> Vec<String> {
+    let kinds: Vec<String> = if arg(a, 1).is_empty() || arg(a, 1) == "-" {
+        vec![]
+    } else {
+        arg(a, 1).split(',').map(|s| s.to_string()).collect()
+    };
+    let rt = match TestRt::new(arg(a, 0)) {
+        Ok(rt) => rt,
+        Err(e) => return vec![format!("error={e}")],
+    };
+    let (sep, port) = match endpoints::server(&rt).await {
+        Ok(x) => x,
+        Err(e) => return vec![format!("error={e}")],
+    };
+    let sh = Arc::new(Mutex::new(ForeignShared::default()));
+    let (stop_tx, stop_rx) = watch::channel(false);
+
+    let sep2 = sep.clone();
+    let sh2 = sh.clone();
+    let app = rt.spawn(async move {
+        let conn = match accept_session(&sep2).await {
+            Ok(c) => c,
+            Err(e) => return Err(format!("session:{e}")),
+        };
+        let set_err = |sh: &Mutex<ForeignShared>, e: String| {
+            let mut s = lock(sh);
+            if s.err.is_none() {
+                s.err = Some(e);
+            }
+        };
+        let (c, s, mut stop) = (conn.clone(), sh2.clone(), stop_rx.clone());
+        let uni_loop = tokio::spawn(async move {
+            let mut readers = vec![];
+            loop {
+                tokio::select! {
+                    r = c.accept_uni() => match r {
+                        Err(e) => {
+                            set_err(&s, format!("accept_uni:{}", canon::conn_err(&e)));
+                            break;
+                        }
+                        Ok(mut r) => {
+                            let slot = {
+                                let mut g = lock(&s);
+                                g.uni.push(None);
+                                g.uni.len() - 1
+                            };
+                            let s = s.clone();
+                            readers.push(tokio::spawn(async move {
+                                let (data, end) = read_all(&mut r).await;
+                                if end != "eos" {
+                                    set_err(&s, format!("read_uni:{end}"));
+                                }
+                                lock(&s).uni[slot] = Some(data);
+                                r
+                            }));
+                        }
+                    },
+                    _ = stop.changed() => break,
+                }
+            }
+            readers
+        });
+        let (c, s, mut stop) = (conn.clone(), sh2.clone(), stop_rx.clone());
+        let bi_loop = tokio::spawn(async move {
+            let mut readers = vec![];
+            loop {
+                tokio::select! {
+                    r = c.accept_bi() => match r {
+                        Err(e) => {
+                            set_err(&s, format!("accept_bi:{}", canon::conn_err(&e)));
+                            break;
+                        }
+                        Ok((w, mut r)) => {
+                            let slot = {
+                                let mut g = lock(&s);
+                                g.bi.push(None);
+                                g.bi.len() - 1
+                            };
+                            let s = s.clone();
+                            readers.push(tokio::spawn(async move {
+                                let (data, end) = read_all(&mut r).await;
+                                if end != "eos" {
+                                    set_err(&s, format!("read_bi:{end}"));
+                                }
+                                lock(&s).bi[slot] = Some(data);
+                                (w, r)
+                            }));
+                        }
+                    },
+                    _ = stop.changed() => break,
+                }
+            }
+            readers
+        });
+        let (c, s, mut stop) = (conn.clone(), sh2.clone(), stop_rx.clone());
+        let dgram_loop = tokio::spawn(async move {
+            loop {
+                tokio::select! {
+                    r = c.receive_datagram() => match r {
+                        Err(e) => {
+                            set_err(&s, format!("recv_dgram:{}", canon::conn_err(&e)));
+                            break;
+                        }
+                        Ok(d) => lock(&s).dgram.push(d.payload().to_vec()),
+                    },
+                    _ = stop.changed() => break,
+                }
+            }
+        });
+        let mut keep: Keep = vec![];
+        let grace = Duration::from_millis(300);
+        for mut r in joined(uni_loop).await? {
+            match tokio::time::timeout(grace, &mut r).await {
+                Ok(Ok(x)) => keep.push(Box::new(x)),
+                Ok(Err(_)) => {}
+                Err(_) => r.abort(),
+            }
+        }
+        for mut r in joined(bi_loop).await? {
+            match tokio::time::timeout(grace, &mut r).await {
+                Ok(Ok(x)) => keep.push(Box::new(x)),
+                Ok(Err(_)) => {}
+                Err(_) => r.abort(),
+            }
+        }
+        joined(dgram_loop).await?;
+        keep.push(Box::new(conn));
+        Ok(keep)
+    });
+
+    // the raw peer; `watched` = (kind, send side) of every foreign stream
+    let mut watched: Vec<(String, quinn::SendStream)> = vec![];
+    let raw_side = async {
+        let client = RawClient::session(port, &RawOpts::default()).await?;
+        let mut keep: Keep = vec![];
+        for (i, kind) in kinds.iter().enumerate() {
+            let (what, sid): (&str, u64) = match kind.as_str() {
+                "uni8" => ("uni", 8),
+                "bi8" => ("bi", 8),
+                "dgram8" => ("dgram", 8),
+                "uni4" => ("uni", 4),
+                "bi4" => ("bi", 4),
+                "dgram4" => ("dgram", 4),
+                other => return Err(format!("bad_kind:{other}")),
+            };
+            for (session, payload, is_foreign) in
+                [(sid, foreign_payload(i), true), (0u64, live_payload(i), false)]
+            {
+                match what {
+                    "dgram" => {
+                        let d = wire::wt_datagram(session, &payload);
+                        client
+                            .conn
+                            .send_datagram(bytes::Bytes::from(d))
+                            .map_err(|e| format!("send_datagram:{e}"))?;
+                    }
+                    "uni" => {
+                        let mut s = client.open_uni().await?;
+                        let mut b = wire::wt_uni_preamble(session);
+                        b.extend(&payload);
+                        raw::write_pieces(&mut s, &[b], 0).await?;
+                        if is_foreign {
+                            // left open: with a FIN, `finished` and `stopped` would race
+                            watched.push((kind.clone(), s));
+                        } else {
+                            s.finish().map_err(|_| "finish:closed".to_string())?;
+                            keep.push(Box::new(s));
+                        }
+                    }
+                    _ => {
+                        let (mut s, r) = client.open_bi().await?;
+                        let mut b = wire::wt_bi_preamble(session);
+                        b.extend(&payload);
+                        raw::write_pieces(&mut s, &[b], 0).await?;
+                        keep.push(Box::new(r));
+                        if is_foreign {
+                            watched.push((kind.clone(), s));
+                        } else {
+                            s.finish().map_err(|_| "finish:closed".to_string())?;
+                            keep.push(Box::new(s));
+                        }
+                    }
+                }
+                tokio::time::sleep(Duration::from_millis(FOREIGN_GAP_MS)).await;
+            }
+        }
+        tokio::time::sleep(Duration::from_millis(FOREIGN_WINDOW_MS)).await;
+        Ok::<_, String>((client, keep))
+    };
+    let raw_res = raw_side.await;
+    let _ = stop_tx.send(true);
+    let app_res = joined(app).await;
+
+    // what the send side of every foreign stream has seen by now
+    let mut foreign_v = vec![];
+    for (kind, s) in watched.iter_mut() {
+        foreign_v.push(format!("{kind}:{}", canon::raw_stopped(s, 50).await));
+    }
+    let peer_close = match &raw_res {
+        Ok((client, _)) => client.peer_close(500).await,
+        Err(_) => "-".to_string(),
+    };
+    let (uni, bi, dgram, mut err) = {
+        let s = lock(&sh);
+        let list = |v: &Vec<Option<Vec<u8>>>| {
+            fmt_list(
+                v.iter()
+                    .map(|x| match x {
+                        Some(d) => hex(d),
+                        None => "unfinished".to_string(),
+                    })
+                    .collect(),
+            )
+        };
+        (
+            list(&s.uni),
+            list(&s.bi),
+            fmt_list(s.dgram.iter().map(|d| hex(d)).collect()),
+            s.err.clone(),
+        )
+    };
+    if let Err(e) = &raw_res {
+        err = Some(format!("raw:{e}"));
+    }
+    let keep_app = match app_res {
+        Ok(Ok(k)) => Some(k),
+        Ok(Err(e)) | Err(e) => {
+            if err.is_none() {
+                err = Some(format!("app:{e}"));
+            }
+            None
+        }
+    };
+    let mut obs = vec![
+        format!("delivered_uni={uni}"),
+        format!("delivered_bi={bi}"),
+        format!("delivered_dgram={dgram}"),
+        format!("foreign={}", fmt_list(foreign_v)),
+        format!("peer_close={peer_close}"),
+    ];
+    if let Some(e) = err {
+        obs.push(format!("err={e}"));
+    }
+    drop(keep_app);
+    drop(watched);
+    drop(raw_res);
+    drop(sep);
+    obs
+}
+
+// ---------------------------------------------------------------------------------------------
+// generators
+
+const RTS: [&str; 2] = ["mt", "ct"];
+
+fn s<T: ToString>(x: T) -> String {
+    x.to_string()
+}
+
+fn gen_c07(thorough: bool, rng: &mut Rng, emit: &mut dyn FnMut(&str, Vec<String>)) {
+    let kinds = ["uni", "bi"];
+    let ks = [1usize, 2, 3, 4, 5, 8];
+    let poss = ["nobyte", "partial", "full_silence", "unread"];
+    let orders = ["stalled_first", "healthy_first", "interleaved"];
+    if thorough {
+        for kind in kinds {
+            for k in ks {
+                for pos in poss {
+                    for order in orders {
+                        for rt in RTS {
+                            emit("stall", vec![s(rt), s(kind), s(k), s(pos), s(order)]);
+                        }
+                    }
+                }
+            }
+        }
+        return;
+    }
+    let mut seen: BTreeSet<Vec<String>> = BTreeSet::new();
+    let mut put = |emit: &mut dyn FnMut(&str, Vec<String>), v: Vec<String>| {
+        if seen.insert(v.clone()) {
+            emit("stall", v);
+        }
+    };
+    // every kind × k × pos once; order and runtime rotate (seed-dependent start)
+    let mut rot = rng.below(6) as usize;
+    for kind in kinds {
+        for k in ks {
+            for pos in poss {
+                rot += 1;
+                put(emit, vec![s(RTS[rot % 2]), s(kind), s(k), s(pos), s(orders[rot % 3])]);
+            }
+        }
+    }
+    // around the capacities of the hand-off queues (4 uni, 1 bidi): every order
+    for (kind, around) in [("uni", &[3usize, 4, 5][..]), ("bi", &[1usize, 2][..])] {
+        for k in around {
+            for pos in ["nobyte", "partial"] {
+                for order in orders {
+                    for rt in RTS {
+                        put(emit, vec![s(rt), s(kind), s(k), s(pos), s(order)]);
+                    }
+                }
+            }
+        }
+    }
+}
+
+fn gen_c08(thorough: bool, rng: &mut Rng, emit: &mut dyn FnMut(&str, Vec<String>)) {
+    let mut sizes: Vec<(usize, usize)> =
+        vec![(1, 0), (0, 1), (50, 50), (100, 0), (0, 100), (250, 150)];
+    if thorough {
+        sizes.push((400, 400));
+    }
+    let tasks = [1usize, 2, 8];
+    let delays = [0u64, 1, 5];
+    if thorough {
+        for (nu, nb) in &sizes {
+            for t in tasks {
+                for d in delays {
+                    for c in [0, 1] {
+                        for rt in RTS {
+                            emit(
+                                "accept.pace",
+                                vec![s(rt), s(nu), s(nb), s(t), s(d), s(c), s(rng.below(1_000_000))],
+                            );
+                        }
+                    }
+                }
+            }
+        }
+        return;
+    }
+    // quick: per size four fixed combinations and three random other ones
+    let fixed: [(usize, u64, u8); 4] = [(1, 0, 0), (8, 0, 1), (2, 1, 1), (1, 5, 0)];
+    let mut flip = rng.below(2) as usize;
+    for (nu, nb) in &sizes {
+        let mut combos: Vec<(usize, u64, u8)> = fixed.to_vec();
+        while combos.len() < 7 {
+            let c = (*rng.pick(&tasks), *rng.pick(&delays), rng.below(2) as u8);
+            if !combos.contains(&c) {
+                combos.push(c);
+            }
+        }
+        for (t, d, c) in combos {
+            flip += 1;
+            emit(
+                "accept.pace",
+                vec![
+                    s(RTS[flip % 2]),
+                    s(nu),
+                    s(nb),
+                    s(t),
+                    s(d),
+                    s(c),
+                    s(rng.below(1_000_000)),
+                ],
+            );
+        }
+    }
+}
+
+fn gen_c17(thorough: bool, rng: &mut Rng, emit: &mut dyn FnMut(&str, Vec<String>)) {
+    let all = ["uni8", "bi8", "dgram8", "uni4", "bi4", "dgram4"];
+    let mut flip = rng.below(2) as usize;
+    // every ordered selection of distinct kinds of size 1, 2, 3
+    for a in 0..6 {
+        for rt in RTS {
+            emit("foreign", vec![s(rt), s(all[a])]);
+        }
+    }
+    for a in 0..6 {
+        for b in 0..6 {
+            if a == b {
+                continue;
+            }
+            for rt in RTS {
+                emit("foreign", vec![s(rt), format!("{},{}", all[a], all[b])]);
+            }
+        }
+    }
+    for a in 0..6 {
+        for b in 0..6 {
+            for c in 0..6 {
+                if a == b || a == c || b == c {
+                    continue;
+                }
+                let kinds = format!("{},{},{}", all[a], all[b], all[c]);
+                if thorough {
+                    for rt in RTS {
+                        emit("foreign", vec![s(rt), kinds.clone()]);
+                    }
+                } else {
+                    flip += 1;
+                    emit("foreign", vec![s(RTS[flip % 2]), kinds]);
+                }
+            }
+        }
+    }
+    // the full list
+    for rt in RTS {
+        emit("foreign", vec![s(rt), all.join(",")]);
+    }
+    if thorough {
+        // longer lists with repetitions
+        for _ in 0..200 {
+            let n = rng.range(4, 10) as usize;
+            let kinds: Vec<&str> = (0..n).map(|_| *rng.pick(&all)).collect();
+            emit("foreign", vec![s(*rng.pick(&RTS)), kinds.join(",")]);
+        }
+    }
 }
 
 pub fn generate(
-    _prop: &str,
-    _thorough: bool,
-    _rng: &mut Rng,
-    _emit: &mut dyn FnMut(&str, Vec<String>),
+    prop: &str,
+    thorough: bool,
+    rng: &mut Rng,
+    emit: &mut dyn FnMut(&str, Vec<String>),
 ) -> bool {
-    false
+    match prop {
+        "C07" => gen_c07(thorough, rng, emit),
+        "C08" => gen_c08(thorough, rng, emit),
+        "C17" => gen_c17(thorough, rng, emit),
+        _ => return false,
+    }
+    true
 }
